@@ -38,3 +38,38 @@ def rewrite(nodes, tag, fn):
         elif node[1] == STRUCT:
             n += rewrite(node[2], tag, fn)
     return n
+
+
+FIXED = {INT: 4, LONG: 8, ENUM: 4, BOOL: 8, DATE: 8, INTERVAL: 4}
+
+
+def framing_ok(data):
+    """The framing half of the TTLV definition (TTLV.tla WellFormed without the value rules), written independently of the
+    library and of the server: known item types, mandated lengths of the fixed-size types, every item inside its parent, a
+    structure filled exactly by its children, one item spanning the whole frame."""
+    def walk(pos, end):
+        while pos < end:
+            if end - pos < 8:
+                return False
+            typ = data[pos + 3]
+            ln = struct.unpack(">I", data[pos + 4:pos + 8])[0]
+            if typ < STRUCT or typ > INTERVAL:
+                return False
+            if typ in FIXED and ln != FIXED[typ]:
+                return False
+            if typ == STRUCT:
+                if pos + 8 + ln > end or not walk(pos + 8, pos + 8 + ln):
+                    return False
+                pos += 8 + ln
+            else:
+                pad = (8 - ln % 8) % 8
+                if pos + 8 + ln + pad > end:
+                    return False
+                pos += 8 + ln + pad
+        return pos == end
+    try:
+        if len(data) < 8 or 8 + struct.unpack(">I", data[4:8])[0] != len(data):
+            return False
+        return walk(0, len(data))
+    except RecursionError:
+        return False
